@@ -12,7 +12,7 @@
 From Coq Require Import ZArith List String Bool Permutation.
 Import ListNotations.
 From TK Require Import Par_Model Par_Spec Par_Proof Par_Region_Model Par_Region_Proof Par_Region_Gen
-  Par_Fill_Model Par_Fill_Proof Par_Row_Model Par_Row_Proof Par_Example Omp.
+  Par_Fill_Model Par_Fill_Proof Par_Row_Model Par_Row_Proof Par_Weight_Model Par_Weight_Proof Par_Example Omp.
 
 (* ---------------------------------------------------------------- generic theorems (once) *)
 
@@ -322,3 +322,25 @@ Theorem c15_crit_commute_logs :
   forall a, eqv (apply_all A C apply (map snd lg) a) (apply_all A C apply (map snd lg') a).
 Proof. exact Par_Proof.crit_commute_logs. Qed.
 Print Assumptions c15_crit_commute_logs.
+
+(* ---------------------------------------------------------------- the weight-matrix regions end to end *)
+
+(* T19 KLLE / KLTSA / HLLE weight matrices: an iteration re-initialises and uses its private scratch, then
+   appends its block of triplets T i inside the critical section.  For EVERY number of iterations,
+   assignment and interleaving: no race, and the matrix assembled from the shared container equals the
+   single-threaded one (the entrywise sum over T 0 .. T (n-1)) in exact arithmetic *)
+Theorem c15_weight_matrix_all_schedules :
+  forall (cs : list Z) (T : nat -> list triplet) n asg (m0 : key -> Z) p0 sch qs st,
+    valid_asg n asg ->
+    run_sched key_eqb sch (init_queues (weight_body cs T) asg, mkState m0 p0 []) = (qs, st) ->
+    ~ race qs /\
+    (done qs -> forall r c,
+       from_triplets (apply_log (clog st)) r c = from_triplets (List.concat (map T (seq 0 n))) r c).
+Proof. exact Par_Weight_Proof.weight_matrix_all_schedules. Qed.
+Print Assumptions c15_weight_matrix_all_schedules.
+
+Theorem c15_gen_weight_shapes :
+  Forall (fun r => same_shapes (r_shared r) (crit_accs "") = true)
+         (filter (fun r => contains "_weight_matrix" (r_name r)) regions).
+Proof. exact Par_Region_Gen.gen_weight_shapes. Qed.
+Print Assumptions c15_gen_weight_shapes.
